@@ -8,14 +8,15 @@ fragment of a contact group and keeps the group's cells; A2 the rect element map
 width,height <- end - start, rx <- radius (else 0) and the class flags broken/solid <- is_broken,
 filled/nofill <- is_filled.  NOT decided (the core of C05): that the four/eight touching fragments
 accepted by is_rect / is_rounded_rect really bound a drawn box, and that every drawn box is accepted —
-recognition depends on float geometry of merged fragments at run time.  A3 (shared with C09.M1): a side
+recognition depends on float geometry of merged fragments at run time.  R2 the functions that decide
+whether a group is a rectangle never look at the dashed flag (sides may be dashed in parts).  A3 (shared with C09.M1): a side
 that contains dashed stretches still merges into one line (can_merge has no condition beyond touching and
 collinearity, the merged line is dashed if any part is), otherwise such boxes are never recognised."""
 import re
 
 from ..common import guards, short, where
 from ..exprs import closure_of, is_const, is_param, mentions, strip
-from ..mirlib import Expr, Program, expr_str
+from ..mirlib import op_place, Expr, Program, expr_str
 
 
 def fold_pushes_both_bounds(prog, cl):
@@ -103,8 +104,89 @@ def corners_rule(run):
                 "(%d of 8 end-point comparisons found): the rails and rungs of a ladder are turned into one rectangle" % len(tested))
 
 
+def style_blind_rule(run):
+    """R2 [N]: recognising a box does not look at the stroke style.  The statement lets the sides of a box be
+    dashed in parts (`:` `!` stretches, `~` edges) and still demands one rect; the dashed flag only selects
+    the class of the result (A1).  In the direct-call region of is_rect / is_rounded_rect (their callees and
+    closures inside the crate, no callback over-approximation) no function may compare lines or fragments for
+    equality (their `==` includes the dashed flag) or read `is_broken` for anything but copying it into a
+    new line."""
+    prog = run.prog
+    roots = [q for q in prog.bodies if re.search(r"cell_buffer::endorse::(is_rect|is_rounded_rect)$", q)]
+    if len(roots) != 2:
+        run.missing("C05.R2", "endorse::is_rect / is_rounded_rect")
+        return
+    seen, work, par = set(), list(roots), {}
+    while work:
+        x = work.pop()
+        if x in seen or x not in prog.bodies or prog.bodies[x].get("crate") != "svgbob":
+            continue
+        seen.add(x)
+        for c in prog.closures_of(x):
+            par.setdefault(c, x)
+            work.append(c)
+        for bid, t in prog.calls(x):
+            n = Program.callee_name(t)
+            if n in prog.bodies and n not in seen:
+                par.setdefault(n, x)
+                work.append(n)
+    run.floor("C05.R2", "recognition_region", len(seen), 20)
+
+    def chain(p):
+        out = [p]
+        while out[-1] in par and len(out) < 8:
+            out.append(par[out[-1]])
+        return " <- ".join(short(x) for x in out)
+
+    bad = 0
+    for p in sorted(seen):
+        b = prog.bodies[p]
+        for bid, t in prog.calls(p):
+            n = Program.callee_name(t)
+            if re.search(r"^<svgbob::[\w:]*::(Line|Fragment|FragmentSpan|MarkerLine) as core::cmp::PartialEq>::(eq|ne)$", n):
+                bad += 1
+                run.bad("C05.R2", "recognition-compares-style/%s" % short(p), where(t),
+                        "%s (%s) compares whole lines/fragments with `==`, which includes the dashed flag: a box whose opposite sides differ in style "
+                        "(a `:` stretch on one side, `~` on one edge) is no longer recognised as a rectangle" % (short(p), chain(p)))
+        flag_locals = set()
+        for blk in b["blocks"]:
+            for st in blk["stmts"]:
+                rv = st.get("rv") or {}
+                for o in rv.get("ops", []):
+                    pl = op_place(o)
+                    if pl and any(isinstance(pr, dict) and pr.get("name") == "is_broken" for pr in pl["p"]):
+                        if rv.get("k") == "agg" and str(rv.get("adt", "")).endswith("line::Line"):
+                            continue
+                        if st.get("dst") and not st["dst"]["p"] and rv.get("k") in ("use", "copy", "move"):
+                            flag_locals.add((st["dst"]["l"], where(st)))
+                        else:
+                            bad += 1
+                            run.bad("C05.R2", "recognition-reads-style/%s" % short(p), where(st),
+                                    "%s (%s) reads the dashed flag of a line while deciding whether the group is a rectangle" % (short(p), chain(p)))
+        for l, w in flag_locals:
+            for blk in b["blocks"]:
+                uses = [(st, (st.get("rv") or {})) for st in blk["stmts"]]
+                for st, rv in uses:
+                    for o in rv.get("ops", []):
+                        pl = op_place(o)
+                        if pl and pl["l"] == l and not pl["p"] and not (rv.get("k") == "agg" and str(rv.get("adt", "")).endswith("line::Line")):
+                            bad += 1
+                            run.bad("C05.R2", "recognition-reads-style/%s" % short(p), w,
+                                    "%s (%s) uses the dashed flag of a line while deciding whether the group is a rectangle" % (short(p), chain(p)))
+                t = blk["term"]
+                if t["k"] in ("switch",):
+                    pl = op_place(t["on"])
+                    if pl and pl["l"] == l:
+                        bad += 1
+                        run.bad("C05.R2", "recognition-reads-style/%s" % short(p), w, "%s (%s) branches on the dashed flag of a line" % (short(p), chain(p)))
+    if not bad:
+        run.ok("C05.R2", "the %d functions that decide whether a group is a rectangle never look at the dashed flag" % len(seen), where(prog.bodies[roots[0]]),
+               ", ".join(sorted(short(x) for x in seen))[:400])
+
+
 def run(run):
     prog = run.prog
+    style_blind_rule(run)
     fib = prog.method("is_broken", r"fragment::Fragment$", "")
     for fn, ctor, rounded in (("endorse_rect", "rect::Rect::new", False), ("endorse_rounded_rect", "rect::Rect::rounded_new", True)):
         ps = [p for p in prog.bodies if p.endswith("cell_buffer::endorse::" + fn)]
